@@ -31,6 +31,8 @@ struct Inner(u8, &'static str);
 
 enum Field {
     Lit(String),
+    /// several `write_str` calls in a row (a hand-written `Debug` that writes a label, then a multi-line value, ...)
+    Multi(Vec<String>),
     Flags,
     Int(u32),
     Nested,
@@ -40,6 +42,7 @@ impl Debug for Field {
     fn fmt(&self, f: &mut Formatter<'_>) -> fmt::Result {
         match self {
             Field::Lit(s) => f.write_str(s),
+            Field::Multi(chunks) => chunks.iter().try_for_each(|c| f.write_str(c)),
             Field::Flags => write!(
                 f,
                 "[alt={} w={:?} p={:?} fill={:?} plus={} zero={}]",
@@ -102,6 +105,8 @@ fn parse_fields(s: &str) -> Option<Vec<Field>> {
         .map(|p| {
             if let Some(h) = p.strip_prefix('l') {
                 hex_decode(h).map(Field::Lit)
+            } else if let Some(hs) = p.strip_prefix('m') {
+                hs.split('~').map(|h| if h == "-" { Some(String::new()) } else { hex_decode(h) }).collect::<Option<Vec<_>>>().map(Field::Multi)
             } else if p == "f" {
                 Some(Field::Flags)
             } else if let Some(n) = p.strip_prefix('i') {
